@@ -194,6 +194,27 @@ func H_Search_Template(p []int) {
 			} else {
 				pts[i] = Point{x, y + 0.03}
 			}
+		case 5, 6, 7, 8: // two points spanning the box [0,100]^2, the rest a zig-zag inside ONE quadrant (5: top-left,
+			// 6: top-right, 7: bottom-left, 8: bottom-right), dense enough that this quadrant's child splits again
+			switch i {
+			case 0:
+				pts[i] = Point{100, 0}
+			case 1:
+				pts[i] = Point{0, 100}
+			default:
+				x := 1 + 0.6*float64(i-2)
+				y := 80.0
+				if i%2 == 1 {
+					y = 82
+				}
+				if layout == 6 || layout == 8 {
+					x = 99 - 0.6*float64(i-2)
+				}
+				if layout == 7 || layout == 8 {
+					y -= 62
+				}
+				pts[i] = Point{x, y}
+			}
 		default: // collinear run
 			pts[i] = Point{float64(i), 0}
 		}
